@@ -766,3 +766,13 @@ End Parser.
 Definition nested_parens (n : nat) : list token :=
   (repeat (TOp OLParen) n ++ [TNumber [49%N]] ++ repeat (TOp ORParen) n)%list.
 Definition nested_minus (n : nat) : list token := (repeat (TOp OMinus) n ++ [TNumber [49%N]])%list.
+
+(* tokenizer and expression parser composed *)
+Definition front_end (is_alpha is_numeric : N -> bool) (q : str) : outcome (res sx) :=
+  match tokenize is_alpha is_numeric q with
+  | Ok (toks, _) => Ok (parse_expr (map tok toks))
+  | Err c => Err c
+  | Panic => Panic
+  | Fuel => Fuel
+  end.
+
